@@ -1,6 +1,7 @@
 package sym
 
 import (
+	"time"
 	"encoding/hex"
 	"fmt"
 	"os"
@@ -301,8 +302,24 @@ func registerNatives(e *Engine) {
 	vp("FreezeGlobals", func(ex *Exec, site ssa.Instruction, args []Value) Value {
 		// package-level variables of the repository become read-only (incl. those touched later)
 		ex.frozenAll = true
-		for _, o := range ex.globals {
+		for g, o := range ex.globals {
+			if g.Pkg == nil || !strings.HasPrefix(g.Pkg.Pkg.Path(), "github.com/google/go-tdx-guest/") || strings.Contains(g.Pkg.Pkg.Path(), "/zzvp") {
+				continue
+			}
 			o.Frozen = true
+			// and everything reachable from it (backing arrays up to capacity, maps, pointees)
+			ex.walk(o.V, func(x interface{}) {
+				switch r := x.(type) {
+				case *Obj:
+					r.Frozen = true
+				case *ByteObj:
+					r.Frozen = true
+				case *Vec:
+					r.Frozen = true
+				case *Map:
+					r.Frozen = true
+				}
+			})
 		}
 		return nil
 	})
@@ -380,11 +397,71 @@ func registerNatives(e *Engine) {
 		return ex.concStr(textproto.CanonicalMIMEHeaderKey(s.C))
 	}
 	flagVar := func(ex *Exec, site ssa.Instruction, args []Value) Value {
-		// flag.String(name, value, usage) and friends: a pointer to the default value
+		// flag.String(name, value, usage) and friends: a pointer to the default value,
+		// registered under the flag's name for flag.Set / flag.Lookup
 		t := site.(ssa.Value).Type().(*types.Pointer).Elem()
-		return Ptr{Obj: ex.newObj(t, args[1])}
+		p := Ptr{Obj: ex.newObj(t, args[1])}
+		if nm, ok := args[0].(*Str); ok && nm.K == strConc {
+			if ex.flags == nil {
+				ex.flags = map[string]flagRec{}
+			}
+			ex.flags[nm.C] = flagRec{p: p, t: t}
+		}
+		return p
 	}
 	n["flag.String"], n["flag.Bool"], n["flag.Int"], n["flag.Duration"], n["flag.Uint"], n["flag.Uint64"] = flagVar, flagVar, flagVar, flagVar, flagVar, flagVar
+	// flag.Set(name, value): what the command line would do for "-name=value"
+	n["flag.Set"] = func(ex *Exec, site ssa.Instruction, args []Value) Value {
+		nm, ok := args[0].(*Str)
+		if !ok || nm.K != strConc {
+			ex.fail("flag.Set needs a concrete flag name")
+		}
+		rec, ok := ex.flags[nm.C]
+		if !ok {
+			return ex.opaqueError("flag.Set: no such flag -" + nm.C)
+		}
+		val := args[1].(*Str)
+		b, isBasic := rec.t.Underlying().(*types.Basic)
+		if !isBasic {
+			ex.fail("flag.Set on flag of type %s", rec.t)
+		}
+		if b.Kind() == types.String {
+			ex.store(rec.p, val)
+			return (*Iface)(nil)
+		}
+		if val.K != strConc {
+			ex.fail("flag.Set of a non-string flag needs a concrete value")
+		}
+		switch {
+		case b.Kind() == types.Bool:
+			v, err := strconv.ParseBool(val.C)
+			if err != nil {
+				return ex.opaqueError("flag.Set: parse error")
+			}
+			ex.store(rec.p, ex.tb().Bool(v))
+		case rec.t.String() == "time.Duration":
+			d, err := time.ParseDuration(val.C)
+			if err != nil {
+				return ex.opaqueError("flag.Set: parse error")
+			}
+			ex.store(rec.p, ex.tb().ConstI(int64(d), 64))
+		case b.Info()&types.IsUnsigned != 0:
+			v, err := strconv.ParseUint(val.C, 0, 64)
+			if err != nil {
+				return ex.opaqueError("flag.Set: parse error")
+			}
+			ex.store(rec.p, ex.tb().Const(v, ex.widthOf(rec.t)))
+		case b.Info()&types.IsInteger != 0:
+			v, err := strconv.ParseInt(val.C, 0, 64)
+			if err != nil {
+				return ex.opaqueError("flag.Set: parse error")
+			}
+			ex.store(rec.p, ex.tb().ConstI(v, ex.widthOf(rec.t)))
+		default:
+			ex.fail("flag.Set on flag of type %s", rec.t)
+		}
+		return (*Iface)(nil)
+	}
 	n["(crypto.Hash).Size"] = func(ex *Exec, site ssa.Instruction, args []Value) Value {
 		h := ex.concretize(ex.term(args[0]), 8, "crypto.Hash value")
 		sizes := map[int64]int{1: 16, 2: 16, 3: 20, 4: 28, 5: 32, 6: 48, 7: 64, 8: 36, 9: 20, 10: 28, 11: 32, 12: 48, 13: 64, 14: 28, 15: 32, 16: 32, 17: 32, 18: 48, 19: 64}
@@ -445,9 +522,6 @@ func registerNatives(e *Engine) {
 	}
 	n["strings.HasSuffix"] = func(ex *Exec, site ssa.Instruction, args []Value) Value {
 		return ex.tb().Bool(strings.HasSuffix(conc(ex, args[0], "strings.HasSuffix"), conc(ex, args[1], "strings.HasSuffix")))
-	}
-	n["strings.ToLower"] = func(ex *Exec, site ssa.Instruction, args []Value) Value {
-		return ex.concStr(strings.ToLower(conc(ex, args[0], "strings.ToLower")))
 	}
 	n["strings.TrimSpace"] = func(ex *Exec, site ssa.Instruction, args []Value) Value {
 		in := conc(ex, args[0], "strings.TrimSpace")
@@ -1017,17 +1091,38 @@ func (ex *Exec) deepEqual(a, b Value) *smt.Term {
 
 // wrapsOf lists the errors an error value wraps (fmt.Errorf %w, multierr).
 func (ex *Exec) wrapsOf(e *Iface) []Value {
-	p, ok := e.V.(Ptr)
-	if !ok || p.Obj == nil || p.Obj.Ghost == nil {
+	var out []Value
+	if p, ok := e.V.(Ptr); ok && p.Obj != nil && p.Obj.Ghost != nil {
+		for i := 0; ; i++ {
+			w, ok := p.Obj.Ghost[fmt.Sprintf("wrap%d", i)]
+			if !ok {
+				break
+			}
+			out = append(out, w)
+		}
+	}
+	if len(out) > 0 || e.Typ == nil {
+		return out
+	}
+	// an error type with an Unwrap method of its own (errors.Join, types of the module)
+	if sel := ex.eng.Prog.MethodSets.MethodSet(e.Typ).Lookup(nil, "Unwrap"); sel == nil {
 		return nil
 	}
-	var out []Value
-	for i := 0; ; i++ {
-		w, ok := p.Obj.Ghost[fmt.Sprintf("wrap%d", i)]
-		if !ok {
-			break
+	m := ex.eng.Prog.LookupMethod(e.Typ, nil, "Unwrap")
+	if m == nil || m.Blocks == nil || m.Signature.Params().Len() != 0 || m.Signature.Results().Len() != 1 || !ex.eng.transparent(m) {
+		return nil
+	}
+	switch res := ex.invoke(&Func{Fn: m}, []Value{e.V}, nil).(type) {
+	case *Iface:
+		if res != nil {
+			out = append(out, res)
 		}
-		out = append(out, w)
+	case *GSlice:
+		if !res.IsNil() {
+			for i := 0; i < res.Len; i++ {
+				out = append(out, res.Vec.Elems[res.Off+i].V)
+			}
+		}
 	}
 	return out
 }
@@ -1181,6 +1276,12 @@ func (ex *Exec) sprintfRope(f string, args []Value) (Value, bool) {
 
 // emitValue renders a fully concrete value for the translator self-test.
 func (ex *Exec) emitValue(v Value) string {
+	signed := false
+	if iv, ok := v.(*Iface); ok && iv != nil && iv.Typ != nil {
+		if b, isB := iv.Typ.Underlying().(*types.Basic); isB && b.Info()&types.IsInteger != 0 && b.Info()&types.IsUnsigned == 0 {
+			signed = true
+		}
+	}
 	if iv, ok := v.(*Iface); ok {
 		if iv == nil {
 			return "nil"
@@ -1200,6 +1301,9 @@ func (ex *Exec) emitValue(v Value) string {
 		}
 		if x.S.K == smt.KBool {
 			return fmt.Sprint(x.IsTrue())
+		}
+		if signed {
+			return fmt.Sprint(x.Int64())
 		}
 		return x.Val.String()
 	case *Str:
